@@ -515,3 +515,92 @@ pub fn soft_backjump(r: &mut Rng) -> (Universe, Prob) {
     r.shuffle(&mut soft);
     (u, Prob { reqs, cons: vec![], soft })
 }
+
+/// Shape: a soft solvable `t` whose run has to SEARCH (constrainer packages whose versions narrow
+/// a shared package `w` from several sides, so that the run learns clauses above its own level)
+/// and that is rejected LATE (a requirement chain of random length ending in a package without
+/// candidates), followed by further soft requirements touching the same packages: whatever the
+/// rejected attempt left behind (learnt clauses, activities, fetched metadata) is still there.
+pub fn soft_learn_reject(r: &mut Rng) -> (Universe, Prob) {
+    let mut u = Universe::default();
+    let nw = 2 + r.below(3) as u32;
+    for v in 1..=nw {
+        u.solv("w", v);
+    }
+    let names = ["a", "b", "c"];
+    let nc = 2 + r.below(2) as usize;
+    let mut cvers: Vec<(usize, u32)> = vec![];
+    for (i, nm) in names.iter().enumerate().take(nc) {
+        let nv = 2 + r.below(2) as u32;
+        for v in 1..=nv {
+            let sid = u.solv(nm, v);
+            cvers.push((i, v));
+            // higher versions are the ones tried first: make them the narrowing ones
+            if r.chance(if v == nv { 5 } else { 1 }, 6) {
+                let lo = 1 + r.below(nw as u64) as u32;
+                let hi = lo + 1 + r.below((nw + 1 - lo) as u64) as u32;
+                let vs = u.vs("w", lo, hi);
+                u.add_con(sid, vs);
+            }
+        }
+    }
+    let chain = r.below(4) as usize;
+    let mut heads = vec![];
+    for k in 0..chain {
+        heads.push(u.solv(&format!("z{k}"), 1));
+    }
+    for k in 0..chain {
+        let next = if k + 1 < chain { u.vs(&format!("z{}", k + 1), 0, 100) } else { u.vs("missing", 1, 2) };
+        u.add_req(heads[k], Req::Single(next));
+    }
+    let t = u.solv("t", 1);
+    let mut treqs = vec![];
+    for nm in names.iter().take(nc) {
+        treqs.push(Req::Single(u.vs(nm, 0, 100)));
+    }
+    if chain > 0 {
+        treqs.push(Req::Single(u.vs("z0", 0, 100)));
+    }
+    treqs.push(Req::Single(u.vs("w", 0, 100)));
+    if r.chance(1, 2) {
+        r.shuffle(&mut treqs);
+    }
+    for q in treqs {
+        u.add_req(t, q);
+    }
+    let mut soft = vec![t];
+    let nu = 1 + r.below(3);
+    for j in 0..nu {
+        let us = u.solv(&format!("u{j}"), 1);
+        let &(ci, v) = r.pick(&cvers);
+        let vs = u.vs(names[ci], v, v + 1);
+        u.add_req(us, Req::Single(vs));
+        if r.chance(1, 4) {
+            let wv = 1 + r.below(nw as u64) as u32;
+            let wvs = u.vs("w", wv, wv + 1);
+            u.add_req(us, Req::Single(wvs));
+        }
+        soft.push(us);
+    }
+    let mut reqs = vec![];
+    if r.chance(1, 2) {
+        u.solv("r", 1);
+        reqs.push(Req::Single(u.vs("r", 0, 100)));
+    }
+    if r.chance(1, 6) {
+        reqs.push(Req::Single(u.vs(names[0], 0, 100)));
+    }
+    // "missing": a package that exists by name only
+    let m = u.pkg("missing");
+    u.pkgs[m as usize].candidates = if r.chance(1, 2) { None } else { Some(vec![]) };
+    u.finalize();
+    if r.chance(1, 4) {
+        for p in &mut u.pkgs {
+            p.hint = if r.chance(1, 2) { Hint::All } else { Hint::None };
+        }
+    }
+    if r.chance(1, 5) {
+        r.shuffle(&mut soft);
+    }
+    (u, Prob { reqs, cons: vec![], soft })
+}
